@@ -45,11 +45,17 @@ fn case_parse(kind: u8, input: &str, pattern: &str, acc: &mut Acc) {
     }
 }
 
+thread_local! {
+    /// family (k): the parse executed just before on this thread (recorded in a violation so that the replay repeats the history)
+    static PRED_PARSE: std::cell::RefCell<Option<(String, String)>> = std::cell::RefCell::new(None);
+}
+
 fn case_parse_inner(kind: u8, input: &str, pattern: &str, acc: &mut Acc) {
     acc.transitions += 1;
     acc.states += 1;
     let name = ["Date::parse", "Time::parse", "DateTime::parse"][kind as usize];
-    let case = || json!({"kind": "parse", "ty": kind, "input": input, "pattern": pattern});
+    let pred = PRED_PARSE.with(|p| p.borrow().clone());
+    let case = || json!({"kind": "parse", "ty": kind, "input": input, "pattern": pattern, "pred": pred.as_ref().map(|(i, p)| json!({"input": i, "pattern": p}))});
     // outcome: Ok(valid?) / Err / Panic
     let got: Out<Result<Result<(), String>, ()>> = call(|| match kind {
         0 => Date::parse(input, pattern).map(|d| {
@@ -408,6 +414,29 @@ fn spaces(thorough: bool) -> Vec<(String, u64, String, Box<dyn Fn(u64, &mut Acc)
         let (inp, pat) = &alias_inputs[(i / 3) as usize];
         case_parse((i % 3) as u8, inp, pat, acc);
     })));
+    // (k) two parses in a row on one thread: every year of a window (1 March of it), then a landmark
+    // text at once - both range ends, leap days, century years. Neither call may panic, and state the
+    // first leaves behind must not make the second panic either.
+    let landmarks: Vec<(&'static str, &'static str)> = vec![
+        ("5879611-07-12", "yyyy-MM-dd"), ("-5879611-06-23", "yyyy-MM-dd"), ("2024-02-29", "yyyy-MM-dd"), ("1900-02-28", "yyyy-MM-dd"), ("2000-02-29", "yyyy-MM-dd"), ("-0005-02-29", "yyyy-MM-dd"),
+        ("5879611-193", "yyyy-DDD"), ("-5879611-174", "yyyy-DDD"), ("2024-366", "yyyy-DDD"),
+    ];
+    let (ylo, yhi): (i64, i64) = if thorough { (-4_000, 4_000) } else { (-850, 850) };
+    let nyears = (yhi - ylo + 1) as u64;
+    let nlm = landmarks.len() as u64;
+    v.push((format!("(k) two parses in a row: 1 March of every year {}..={} first, then each of {} landmark texts x {{Date, DateTime}}", ylo, yhi, nlm), nyears * nlm * 2, "a per-year memo with a wrongly reduced key collides somewhere in a window of consecutive years".into(), Box::new(move |i, acc| {
+        let kind = if i % 2 == 0 { 0u8 } else { 2 };
+        let (text, pat) = landmarks[(i / 2 % nlm) as usize];
+        let y = ylo + (i / (2 * nlm)) as i64;
+        if y == 0 {
+            return;
+        }
+        let first = format!("{}{:04}-03-01", if y < 0 { "-" } else { "" }, y.abs());
+        case_parse_inner(kind, &first, "yyyy-MM-dd", acc);
+        PRED_PARSE.with(|p| *p.borrow_mut() = Some((first.clone(), "yyyy-MM-dd".to_string())));
+        case_parse_inner(kind, text, pat, acc);
+        PRED_PARSE.with(|p| *p.borrow_mut() = None);
+    })));
     // (e) cron
     let nc = count_strings(11, if thorough { 5 } else { 4 });
     let clen = if thorough { 5 } else { 4 };
@@ -453,7 +482,13 @@ pub fn run(ctx: &Ctx) -> i32 {
 
 pub fn replay(_op: &str, case: &Value, acc: &mut Acc) -> bool {
     match case["kind"].as_str() {
-        Some("parse") => case_parse(case["ty"].as_u64().unwrap() as u8, case["input"].as_str().unwrap(), case["pattern"].as_str().unwrap(), acc),
+        Some("parse") => {
+            let ty = case["ty"].as_u64().unwrap() as u8;
+            if case["pred"].is_object() {
+                case_parse_inner(ty, case["pred"]["input"].as_str().unwrap(), case["pred"]["pattern"].as_str().unwrap(), &mut Acc::default());
+            }
+            case_parse(ty, case["input"].as_str().unwrap(), case["pattern"].as_str().unwrap(), acc)
+        }
         Some("format") => case_format(case["ty"].as_u64().unwrap() as u8, case["day"].as_i64().unwrap(), case["nod"].as_str().unwrap().parse().unwrap(), case["off"].as_i64().unwrap() as i32, case["pattern"].as_str().unwrap(), acc),
         Some("fixed") => case_fixed(case["which"].as_u64().unwrap() as u8, case["input"].as_str().unwrap(), acc),
         Some("cron") => case_cron(case["expr"].as_str().unwrap(), acc),
